@@ -334,6 +334,8 @@ class Executor:
                 elif isinstance(v, Agg) and v.ty == 'Box':
                     r = v.fields[0].fields[0]
                     cell, path = r.cell, r.path
+                elif isinstance(v, Str):
+                    pass    # &str / String are one opaque value: dereferencing stays on it
                 else:
                     raise Unsupported(f"deref of non-ref {v} at {place} in {frame.func.name}")
             else:
